@@ -9,7 +9,7 @@ impl AnnotationStore {
     /// Verification hook (read-only): every relation map, id map and store vector as plain tuples.
     pub fn verif_dump(&self) -> serde_json::Value {
         serde_json::json!({
-            "annotations": self.annotations.iter().map(|a| a.as_ref().map(|a| a.id().map(|s| s.to_string()))).collect::<Vec<_>>(),
+            "annotations": self.annotations.iter().map(|a| a.as_ref().map(|a| (true, a.id().map(|s| s.to_string())))).collect::<Vec<_>>(),
             "resources": self.resources.iter().map(|r| r.as_ref().map(|r| r.verif_dump())).collect::<Vec<_>>(),
             "annotationsets": self.annotationsets.iter().map(|s| s.as_ref().map(|s| s.verif_dump())).collect::<Vec<_>>(),
             "annotation_idmap": self.annotation_idmap.verif_dump(),
